@@ -90,7 +90,7 @@ def _relayout(draw, line):
 @st.composite
 def _unit(draw):
     g = _G(draw)
-    pick = draw(st.integers(0, 47))
+    pick = draw(st.integers(0, 53))
     sup = True
     pre = ""
     label = ""
@@ -303,6 +303,35 @@ def _unit(draw):
         body = f"q = ds.{o1}(lambda {a}: {inner}).{o2}({g.lam(o2, a2)[0]})"
         sup = False
         label = "continuation-line-starts-with-nested-lambda"
+    elif pick in (48, 49):
+        # the lambda is passed by keyword: the token in front of it is the parameter name, not the method name
+        kwname = {"Select": "f", "SelectMany": "func", "Where": "filter"}
+        o1, o2 = g.op(), g.op()
+        a1 = draw(st.sampled_from(ARGS))
+        a2 = a1 if draw(st.integers(0, 3)) == 0 else draw(st.sampled_from(ARGS))
+        first = f"ds.{o1}({g.lam(o1, a1)[0]})" if pick == 48 else "ds"
+        body = f"q = {first}.{o2}({kwname[o2]}={g.lam(o2, a2)[0]})"
+        sup = False
+        label = "lambda-passed-by-keyword" + (":after-another-call" if pick == 48 else "")
+    elif pick in (50, 51):
+        # the two arms of a conditional expression are lambdas (only one of them is the callable that is passed)
+        o = g.op()
+        a1 = draw(st.sampled_from(ARGS))
+        a2 = a1 if draw(st.integers(0, 3)) == 0 else draw(st.sampled_from(ARGS))
+        flag = draw(st.booleans())
+        l1, l2 = g.lam(o, a1)[0], g.lam(o, a2)[0]
+        body = f"FLAG = {flag}\nq = ds.{o}(({l1}) if FLAG else ({l2}))" if pick == 50 else f"FLAG = {flag}\nq = ds.{o}({l1} if FLAG else {l2})"
+        sup = False
+        label = "lambda-in-arm-of-conditional-expression"
+    elif pick in (52, 53):
+        # the lambda goes through a helper call on the same line as another operator call
+        o1, o2 = g.op(), g.op()
+        a1 = draw(st.sampled_from(ARGS))
+        a2 = a1 if draw(st.integers(0, 3)) == 0 else draw(st.sampled_from(ARGS))
+        l1, l2 = g.lam(o1, a1)[0], g.lam(o2, a2)[0]
+        body = "def ident(z):\n    return z\n" + (f"q = ds.{o1}(ident({l1})).{o2}({l2})" if pick == 52 else f"q = ds.{o1}({l1}).{o2}(ident({l2}))")
+        sup = False
+        label = "lambda-through-helper-call-on-the-line"
     elif pick >= 42:
         # free-form layout: a chain of 2-3 calls, then line breaks (and comments) at random places where python allows them
         ncalls = draw(st.integers(2, 3))
@@ -370,10 +399,10 @@ class RecDS(EventDataset):
         return entry["res"]
     def Select(self, f):
         return self._rec("Select", f)
-    def Where(self, f):
-        return self._rec("Where", f)
-    def SelectMany(self, f):
-        return self._rec("SelectMany", f)
+    def Where(self, filter):
+        return self._rec("Where", filter)
+    def SelectMany(self, func):
+        return self._rec("SelectMany", func)
 ds = RecDS()
 '''
 
